@@ -182,7 +182,8 @@ func c38Purity(rt *rapid.T, rec *evi.Recorder, cs map[string]any, seed, seedOrig
 	otherSeed := sha512.Sum512(append([]byte("c38-other"), seed...))
 	_, sk2, _ := vrf.KeyGen(otherSeed[:32])
 	_, _, _ = vrf.Prove(sk2, alpha)
-	_, _, _ = vrf.Prove(sk, append(clone(alpha), 1))
+	alphaExt := append(clone(alpha), 1)
+	pExt, oExt, _ := vrf.Prove(sk, alphaExt)
 	if _, _, err := vrf.Prove(sk[:31], alpha); err == nil {
 		rec.Class("prove_accepts_31_byte_key")
 	}
@@ -230,6 +231,13 @@ func c38Purity(rt *rapid.T, rec *evi.Recorder, cs map[string]any, seed, seedOrig
 		bit := rapid.IntRange(0, len(ip.buf)*8-1).Draw(rt, "inplaceBit")
 		if ip.name == "message" && rapid.Bool().Draw(rt, "inplaceTail") {
 			bit = len(ip.buf)*8 - 1 - bit%8
+		}
+		// a different genuine triple first, so that the next call cannot be answered from
+		// anything remembered about an equal request made with other buffers
+		if o, e := vrfVerifyAndHash(pk0, pExt, alphaExt); e != nil || !bytes.Equal(o, oExt) {
+			if !fail("history:genuine-rejected-around-in-place-change:other-triple", fmt.Sprintf("genuine proof for the extended message rejected: %v", e)) {
+				return false
+			}
 		}
 		o1, e1 := ip.call(ip.buf)
 		ip.buf[bit/8] ^= 1 << (bit % 8)
